@@ -20,6 +20,10 @@ import (
 
 var drainScenarios = []termScenario{
 	{name: "plain-tiers", pods: []termPod{{name: "a"}, {name: "d", daemon: true}, {name: "c", critical: true}}, first: "nodeclaim"},
+	// the do-not-disrupt duration (61m since a start one hour ago) EXPIRES one minute into the run: the protected pod must
+	// still go before the daemon and the critical pod
+	{name: "dnd-expiring-lower-tier+daemon+critical", pods: []termPod{{name: "a", dnd: "61m"}, {name: "d", daemon: true}, {name: "c", critical: true}}, first: "nodeclaim"},
+	{name: "dnd-true-lower-tier+daemon+critical", pods: []termPod{{name: "a", dnd: "true"}, {name: "d", daemon: true}, {name: "c", critical: true}}, first: "nodeclaim"},
 	{name: "dnd-true-no-tgp", pods: []termPod{{name: "a", dnd: "true"}, {name: "b"}}, first: "nodeclaim"},
 	{name: "dnd-duration-expired-and-active", pods: []termPod{{name: "a", dnd: "10m"}, {name: "b", dnd: "3h"}}, first: "nodeclaim"},
 	{name: "static+tolerating", pods: []termPod{{name: "s", static: true}, {name: "t", tolerates: true}, {name: "a"}}, first: "nodeclaim"},
@@ -104,6 +108,15 @@ func c10After(c *world.Call, t *termRun) {
 					continue
 				}
 				t.viol = append(t.viol, c01Violation{"daemon/critical pod evicted before a non-critical non-daemon pod", fmt.Sprintf("eviction of %s (tier %d) requested while evictable non-critical non-daemon pod %s has not been evicted", c.Name, ps.tier(), name)})
+			}
+		}
+		// ... and, read literally: no non-critical non-daemon pod is evicted AFTER a daemon / critical pod was (e.g. one whose
+		// do-not-disrupt duration expired in the meantime)
+		if ps.tier() == 0 {
+			for name, qs := range t.spec {
+				if qs.tier() > 0 && t.evicted[name] {
+					t.viol = append(t.viol, c01Violation{"non-critical non-daemon pod evicted after a daemon/critical pod", fmt.Sprintf("eviction of %s (non-critical, non-daemon) requested after %s (tier %d) had already been evicted", c.Name, name, qs.tier())})
+				}
 			}
 		}
 		if c.Err == "" {
